@@ -57,6 +57,7 @@ func needles(it secretItem) []needle {
 	s := it.Secret
 	add("literal", s)
 	if it.PEM != nil {
+		add("as-written", it.Laid)
 		add("query-escaped", url.QueryEscape(s))
 		if len(s) > 120 {
 			for i, at := range []int{len(s) / 3, len(s) / 2, 2 * len(s) / 3} {
@@ -108,6 +109,15 @@ func knownClass(c *Case, it secretItem, channel string) string {
 	flag := it.Flag
 	if c.Kind != "startfail" {
 		return ""
+	}
+	// PROPOSED class (not recorded: see report): an inline value that does not begin with the five bytes
+	// "data:" (white space in front of it, DATA:, Data:) is read as a file name by ReadFileOrBase64, and
+	// os.ReadFile's error - "open <name>: no such file or directory" / "file name too long" - carries the
+	// whole value into the 'fatal error exiting' record and the termination log. A different code path
+	// from F43 (no flag parser involved). Judged only once the class is recorded (see specFail).
+	if c.StartFault == "inline-unrecognised" && layoutKey(flag, it.Index) == inlineFaultKey(c) &&
+		(channel == "startup-log" || channel == "termination-log") {
+		return unrecognisedClass
 	}
 	// F43: a value that the flag's parser rejects is echoed with %q in the usage error: pflag's
 	// "invalid argument %q for %q flag" (printed by cobra on stderr, copied to /dev/termination-log
@@ -213,17 +223,72 @@ func scan(ctx *core.Ctx, c *Case, k int, o *observation, p *plan) {
 	scanChannels(ctx, c, k, channels(o), p)
 }
 
+// specFail is ctx.SpecFail, except that a finding of a class this scenario proposes but
+// known_findings.json does not record (yet) is counted instead of judged.
+func specFail(ctx *core.Ctx, clause, class string, c *Case, impl, detail string) {
+	if class == unrecognisedClass && !classRecorded(ctx, class) {
+		ctx.Count("unjudged/proposed-class/" + class + "/" + strings.SplitN(clause, " emit the same ", 2)[0])
+		return
+	}
+	ctx.SpecFail(clause, class, c, impl, detail)
+}
+
+var (
+	recordedOnce sync.Once
+	recorded     map[string]bool
+)
+
+func classRecorded(ctx *core.Ctx, class string) bool {
+	recordedOnce.Do(func() {
+		recorded = map[string]bool{}
+		for _, f := range core.LoadKnown(ctx.Root) {
+			if f.Property == "C19" {
+				recorded[f.Class] = true
+			}
+		}
+	})
+	return recorded[class]
+}
+
 func scanChannels(ctx *core.Ctx, c *Case, k int, chs []channelText, p *plan) {
 	all := distinctNeedles(p)
+	wins := planWindows(p)
+	type squeezed struct {
+		text []byte
+		pos  []int
+	}
+	sq := map[int]squeezed{}
 	for i, it := range p.Secrets {
 		ns := all[i]
-		for _, ch := range chs {
+		for ci, ch := range chs {
 			if ch.Text == "" {
 				continue
 			}
 			ctx.CountN("scanned-bytes/"+strings.SplitN(ch.Name, "/", 2)[0], len(ch.Text))
-			for _, n := range ns {
+			cns, winAt := ns, -1
+			if it.PEM != nil {
+				// key material: every windowLen-character window of its base64 text, however the output
+				// breaks, escapes or re-encodes the lines
+				found := false
+				for _, n := range ns {
+					found = found || strings.Contains(ch.Text, n.Text)
+				}
+				if !found && len(wins[i]) > 0 {
+					z, ok := sq[ci]
+					if !ok {
+						z.text, z.pos = squeeze(ch.Text)
+						sq[ci] = z
+					}
+					if winAt = findWindow(z.text, z.pos, wins[i]); winAt >= 0 {
+						cns = []needle{{fmt.Sprintf("window of %d characters of the base64 text (line breaks, escapes and percent-encoding removed)", windowLen), ch.Text[winAt : winAt+1]}}
+					}
+				}
+			}
+			for _, n := range cns {
 				at := strings.Index(ch.Text, n.Text)
+				if winAt >= 0 {
+					at = winAt
+				}
 				if at < 0 {
 					continue
 				}
@@ -238,7 +303,7 @@ func scanChannels(ctx *core.Ctx, c *Case, k int, chs []channelText, p *plan) {
 				if it.PEM != nil {
 					what = "data: payload"
 				}
-				ctx.SpecFail("secret absent from "+ch.Name, knownClass(c, it, ch.Name), c,
+				specFail(ctx, "secret absent from "+ch.Name, knownClass(c, it, ch.Name), c,
 					snippet(ch.Text, at, len(n.Text)),
 					fmt.Sprintf("%s of --%s (given as %s, entry %d, secret assignment %d) appears in %s, encoding %s; log-level=%s log-format=%s log-http=%s%s",
 						what, it.Flag, sourceOf(c, it.Flag), it.Index, k, ch.Name, n.Enc, c.Level, c.Format, c.LogHTTP, startFaultNote(c)))
@@ -541,20 +606,36 @@ func diffLines(a, b []string) (onlyA, onlyB []string) {
 func leakClass(c *Case, channel, line string, p *plan) string {
 	class, found := "", false
 	all := distinctNeedles(p)
+	wins := planWindows(p)
+	sq, pos := squeeze(line)
 	for i, it := range p.Secrets {
+		hit := findWindow(sq, pos, wins[i]) >= 0
 		for _, n := range all[i] {
-			if strings.Contains(line, n.Text) {
-				cl := knownClass(c, it, channel)
-				if cl == "" {
-					return "" // a secret that no recorded class explains
-				}
-				class, found = cl, true
-				break
+			hit = hit || strings.Contains(line, n.Text)
+		}
+		if hit {
+			cl := knownClass(c, it, channel)
+			if cl == "" {
+				return "" // a secret that no recorded class explains
 			}
+			class, found = cl, true
 		}
 	}
 	if found {
 		return class
+	}
+	// a value that was echoed over several lines: the line holds a run of its text too short for a window
+	if key := inlineFaultKey(c); key != "" && c.StartFault == "inline-unrecognised" {
+		for _, it := range p.Secrets {
+			if layoutKey(it.Flag, it.Index) != key {
+				continue
+			}
+			for _, tok := range strings.FieldsFunc(line, func(r rune) bool { return r > 0x7f || !isB64Byte(byte(r)) }) {
+				if len(tok) >= 8 && strings.Contains(it.Laid, tok) {
+					return knownClass(c, it, channel)
+				}
+			}
+		}
 	}
 	// material shared by several flags (the certificate pasted into the key slot as well): any of them
 	for _, it := range p.Secrets {
@@ -568,6 +649,76 @@ func leakClass(c *Case, channel, line string, p *plan) string {
 		}
 	}
 	return ""
+}
+
+// errorPath names the path an error response came by: the status and the kind of cause, read off the
+// FIXED texts the proxy chooses among (the first body line is `<name> <message of the handler that
+// matched>`; for a *net.OpError the operation and the errno text follow) - never off anything a
+// configured value could be part of. timing says that which of these causes a peer's abrupt end
+// produces depends on scheduling (a close is seen as EOF, as ECONNRESET or as EPIPE; a slow machine
+// turns either into a timeout).
+func errorPath(dump string) (path string, timing bool) {
+	status := ""
+	if f := strings.Fields(strings.SplitN(dump, "\n", 2)[0]); len(f) >= 2 {
+		status = f[1]
+	}
+	if !strings.Contains(dump, "\nX-Forwarder-Error: ") {
+		return status + "/relayed", false
+	}
+	body := dump
+	if i := strings.Index(dump, "\n\n"); i >= 0 {
+		body = dump[i+2:]
+	}
+	kind := "other"
+	for _, k := range []struct{ text, kind string }{
+		{"connection closed by remote host", "eof"},
+		{"timed out connecting to remote host", "timeout"},
+		{"failed to connect to remote host", "net"},
+		{"tls handshake failed", "tls"},
+		{"tls alert for host", "tls-alert"},
+		{"proxy error for host", "martian"},
+		{"proxying is denied", "denied"},
+		{"request context canceled", "canceled"},
+		{"encountered an unexpected error", "unexpected"},
+	} {
+		if strings.HasPrefix(body, proxyName+" "+k.text) {
+			kind = k.kind
+			break
+		}
+	}
+	timing = kind == "eof" || kind == "timeout" || kind == "net"
+	if kind == "net" {
+		for _, op := range []string{"read", "write", "dial", "proxyconnect", "socks connect"} {
+			if strings.Contains(body, "\n"+op+" tcp") {
+				kind += "-" + op
+			}
+		}
+		for _, e := range []string{"connection reset by peer", "broken pipe", "connection refused"} {
+			if strings.Contains(body, ": "+e+"\n") {
+				kind += "-" + strings.Fields(e)[1]
+			}
+		}
+	}
+	return status + "/" + kind, timing
+}
+
+// sameErrorPath decides whether the error responses of the two runs to one request can be compared: only
+// if both came by the same path. If the paths differ and both are causes whose choice depends on timing,
+// it is the harness's environment that differed between the runs (seen under heavy load: the dropped
+// exchange ended in EOF in one run and in ECONNRESET in the other), not the secrets: no verdict.
+// Anything else that differs is judged as before.
+func sameErrorPath(ctx *core.Ctx, name, a, b string) bool {
+	if a == "" || b == "" {
+		return true
+	}
+	pa, ta := errorPath(a)
+	pb, tb := errorPath(b)
+	if pa != pb && ta && tb {
+		ctx.Count("inconclusive/two-run-environment-differed")
+		ctx.Count("inconclusive/two-run-environment-differed/" + strings.SplitN(name, "/fault/", 2)[0] + "/" + pa + "≠" + pb)
+		return false
+	}
+	return true
 }
 
 func diffRuns(ctx *core.Ctx, c *Case, oa, ob *observation, pa, pb *plan) {
@@ -612,7 +763,20 @@ func diffRuns(ctx *core.Ctx, c *Case, oa, ob *observation, pa, pb *plan) {
 		}
 		return out
 	}
+	skip := map[string]bool{}
 	for _, p := range ps {
+		if strings.HasPrefix(p.name, "error-response/") && !sameErrorPath(ctx, p.name, p.a, p.b) {
+			skip[p.name] = true
+			if strings.HasPrefix(p.name, "error-response/fault/") {
+				// what the proxy logged about that exchange differs for the same reason
+				skip["fault-phase-log"] = true
+			}
+		}
+	}
+	for _, p := range ps {
+		if skip[p.name] {
+			continue
+		}
 		la, lb := sortedLines(canonical(p.a, oa, g)), sortedLines(canonical(p.b, ob, g))
 		onlyA, onlyB := diffLines(la, lb)
 		if p.name == "startup-log" || p.name == "request-log" || p.name == "fault-phase-log" {
@@ -641,7 +805,7 @@ func diffRuns(ctx *core.Ctx, c *Case, oa, ob *observation, pa, pb *plan) {
 			if len(e[1]) > 0 {
 				y = e[1][0]
 			}
-			ctx.SpecFail("two runs that differ only in the secrets emit the same "+p.name, cl, c,
+			specFail(ctx, "two runs that differ only in the secrets emit the same "+p.name, cl, c,
 				"run 0: "+short(x, 400)+"\nrun 1: "+short(y, 400),
 				fmt.Sprintf("after canonicalising timestamps, durations, ports, ids and the run directory the %s of the two runs differ in %d+%d lines (lines compared as a multiset)", p.name, len(e[0]), len(e[1])))
 		}
@@ -765,6 +929,7 @@ func checkCase(ctx *core.Ctx, c *Case) {
 		}
 		ctx.Count("flag/" + st.Flag + "/" + src)
 	}
+	countLayouts(ctx, c, plans[0])
 	for _, it := range plans[0].Secrets {
 		if it.PEM != nil {
 			ctx.Count("secret-kind/data-payload")
@@ -782,6 +947,31 @@ func checkCase(ctx *core.Ctx, c *Case) {
 			if strings.ContainsAny(it.Secret, " /+=") {
 				ctx.Count("secret-has/space-slash-plus-equals")
 			}
+		}
+	}
+}
+
+// countLayouts records the textual forms the inline values of a case were written in, per source.
+func countLayouts(ctx *core.Ctx, c *Case, p *plan) {
+	for _, it := range p.Secrets {
+		if it.PEM == nil {
+			continue
+		}
+		src := sourceOf(c, it.Flag)
+		if src == "file" {
+			src += ":" + c.ConfigFmt
+			if c.FileQuoting == "block" && c.ConfigFmt != "json" {
+				for _, st := range p.Settings {
+					if st.Flag == it.Flag && it.Index < len(st.Raws) && blockable(st.Raws[it.Index]) {
+						src += ":block"
+					}
+				}
+			}
+		}
+		ctx.Count("inline-layout/" + c.Kind + "/" + c.layoutOf(it.Flag, it.Index) + "/" + src)
+		ctx.Count("inline-layout-flag/" + it.Flag + "/" + c.layoutOf(it.Flag, it.Index))
+		if len(it.Secret) > 3000 {
+			ctx.Count("inline-payload/longer-than-3000-characters")
 		}
 	}
 }
